@@ -18,7 +18,7 @@ type c05Case struct {
 	L   int    `json:"L"`
 	Loc string `json:"location"`
 	Key string `json:"key,omitempty"`
-	Res string `json:"residues,omitempty"` // optional explicit residues (IUPAC letters, both cases)
+	Res string `json:"residues,omitempty"`    // optional explicit residues (IUPAC letters, both cases)
 	Raw bool   `json:"raw_literal,omitempty"` // value not constructor-normal: only the mirror law and extraction symmetry are judged
 }
 
